@@ -65,7 +65,7 @@ type Req struct {
 	Ranges  []c07.Range `json:"ranges"`            // Accept header structure (none: no header)
 	Cred    string      `json:"cred,omitempty"`    // good | bad | none | malformed | bearer (a token nobody accepts) | goodbearer
 	Param   string      `json:"param,omitempty"`   // ok | missing | bad (only when the operation declares n)
-	Outcome string      `json:"outcome,omitempty"` // value | nil | responder | resperr | mwerror | notimpl | errplain | errstatus | errcomposite
+	Outcome string      `json:"outcome,omitempty"` // value | nil | responder | resperr | mwerror | mwerror-nil (middleware.Error with a nil payload) | notimpl | errplain | errstatus | errcomposite
 	Code    int         `json:"code,omitempty"`    // status of mwerror / errstatus
 	Route   string      `json:"route,omitempty"`   // "" | notfound (unknown path) | wrongmethod (PATCH, never declared)
 }
@@ -81,9 +81,11 @@ type Case struct {
 	LateResponder bool `json:"late_responder,omitempty"`
 	// SharedResults: the handlers return the same middleware.Error / NotImplemented value for every request that asks
 	// for it (a package-level "not implemented yet" responder), instead of a fresh one per request.
-	SharedResults bool  `json:"shared_results,omitempty"`
-	Ops           []Op  `json:"ops"`
-	Reqs          []Req `json:"reqs"`
+	SharedResults bool `json:"shared_results,omitempty"`
+	// NoIDs: the operations carry no operationId (it is optional in the description language)
+	NoIDs bool  `json:"no_ids,omitempty"`
+	Ops   []Op  `json:"ops"`
+	Reqs  []Req `json:"reqs"`
 }
 
 type jm = map[string]interface{}
@@ -242,6 +244,9 @@ func Check(c Case) *kit.Violation {
 			responses["default"] = jm{"description": "default"}
 		}
 		o := jm{"operationId": fmt.Sprintf("op%d", i), "responses": responses}
+		if c.NoIDs {
+			delete(o, "operationId")
+		}
 		if len(op.Produces) > 0 {
 			o["produces"] = op.Produces
 		}
@@ -337,6 +342,8 @@ func Check(c Case) *kit.Violation {
 				}), nil
 			case "resperr":
 				return respErr{call}, nil
+			case "mwerror-nil":
+				return middleware.Error(call.code, nil), nil
 			case "mwerror":
 				if c.SharedResults {
 					if sharedErrors[call.code] == nil {
@@ -540,13 +547,16 @@ func Check(c Case) *kit.Violation {
 				return kit.Failf("RESPONDER %s; the responder's own status 233 was not kept", desc)
 			}
 			continue
-		case "mwerror", "notimpl":
+		case "mwerror", "notimpl", "mwerror-nil":
 			if len(log) != 0 {
 				return kit.Failf("ERROR-RESULT %s; middleware.Error is a result that writes itself, the error responder must not run", desc)
 			}
 			want, payload := rq.Code, "E"
 			if rq.Outcome == "notimpl" {
 				want, payload = http.StatusNotImplemented, "N"
+			}
+			if rq.Outcome == "mwerror-nil" {
+				payload = "<nil>" // what the stamped producer writes for a nil payload: it is still the one to write the body
 			}
 			if want <= 0 {
 				want = http.StatusInternalServerError
